@@ -302,8 +302,40 @@ func (g *Generator) generateEnumConstFromValue(t *parser.Type, value int) string
 
 // quote creates a Java string literal for a string.
 func (g *Generator) quote(s string) string {
-	// For now, just use Go quoting rules.
-	return strconv.Quote(s)
+	// Go quoting rules, except for the escapes Java does not know: Go writes
+	// control characters as \a, \v or \xNN, Java needs \uNNNN for them.
+	quoted := strconv.Quote(s)
+	if !strings.Contains(quoted, `\`) {
+		return quoted
+	}
+	var b strings.Builder
+	for i := 0; i < len(quoted); i++ {
+		if quoted[i] != '\\' || i+1 >= len(quoted) {
+			b.WriteByte(quoted[i])
+			continue
+		}
+		switch quoted[i+1] {
+		case 'a':
+			b.WriteString(`\u0007`)
+			i++
+		case 'v':
+			b.WriteString(`\u000b`)
+			i++
+		case 'x':
+			if i+3 < len(quoted) {
+				b.WriteString(`\u00` + quoted[i+2:i+4])
+				i += 3
+			} else {
+				b.WriteByte(quoted[i])
+			}
+		default:
+			// \\, \", \n, \t, \uNNNN ...: copy the escape as a unit
+			b.WriteByte(quoted[i])
+			b.WriteByte(quoted[i+1])
+			i++
+		}
+	}
+	return b.String()
 }
 
 func (g *Generator) namespaceForInclude(includeName string) string {
